@@ -103,6 +103,9 @@ def run_suite(ctx, name, cases, report_all_classes=True, owned_only=True, hooks=
                 continue
             x = extras[t["id"]]
             item = {"clause": it["clause"], "class": it["class"], "symptom": dict(it["symptom"], site=x["site"], exc=x["exc"])}
+            if it["clause"] in ("accepted", "outcome", "diagnames"):
+                import re as _re
+                item["symptom"]["why"] = _re.sub(r"\[[^\]]*\]", "[..]", x["msg"])[:70] if it["clause"] == "accepted" else t["outcome"]
             replay = {"kind": "asm", "lines": c.lines, "prog": c.prog, "focus": c.focus, "stmt_index": it["k"], "outcome": t["outcome"], "msg": x["msg"],
                       "obs": t["obs"][it["k"] - 1] if t["obs"] and 0 < it["k"] <= len(t["obs"]) else None, "suite": name, "tag": c.tag}
             if ctx.report(item, replay) == "violation":
